@@ -13,6 +13,7 @@ import (
 	"regexp"
 	"sort"
 	"strings"
+	"time"
 
 	"github.com/acekingke/yaccgo/verifsim/engbrt"
 )
@@ -120,6 +121,26 @@ func Build(modRoot string, srcs []Src) (*Batch, error) {
 	return nil, fmt.Errorf("driver build did not converge")
 }
 
+// runBounded runs a driver process under a wall-clock backstop far above anything a batch needs: a driver that is still
+// running then is harness trouble (the engine's own budgets and watchdog should have ended it), never a verdict.
+func runBounded(cmd *exec.Cmd) error {
+	if err := cmd.Start(); err != nil {
+		return err
+	}
+	done := make(chan error, 1)
+	go func() { done <- cmd.Wait() }()
+	select {
+	case err := <-done:
+		return err
+	case <-time.After(driverBackstop):
+		cmd.Process.Kill()
+		<-done
+		return fmt.Errorf("driver still running after %v (wall-clock backstop): harness trouble", driverBackstop)
+	}
+}
+
+const driverBackstop = 40 * time.Minute
+
 func tail(s string, n int) string {
 	if len(s) > n {
 		return s[len(s)-n:]
@@ -139,8 +160,8 @@ func (b *Batch) writeMain(names []string) error {
 		obj[s.Name] = s.Object
 	}
 	for _, n := range names {
-		fmt.Fprintf(&sb, "\tengbrt.Register(&engbrt.Parser{Name: %q, Object: %v, New: %s.VNew, Init: %s.VInit, Parse: %s.VParse, Action: %s.VAction, Translate: %s.VTranslate, Consts: %s.VConsts, Trace: %s.VTrace, ErrAcc: %s.VErrAcc,\n\t\tSetHooks: func(n func(string, int) (int, int), r func(int)) { %s.HookNext = n; %s.HookRec = r }})\n",
-			n, obj[n], n, n, n, n, n, n, n, n, n, n)
+		fmt.Fprintf(&sb, "\tengbrt.Register(&engbrt.Parser{Name: %q, Object: %v, New: %s.VNew, Init: %s.VInit, Parse: %s.VParse, Action: %s.VAction, Translate: %s.VTranslate, Consts: %s.VConsts, Trace: %s.VTrace, ErrAcc: %s.VErrAcc, Boot: %s.VBoot,\n\t\tSetHooks: func(n func(string, int) (int, int), r func(int)) { %s.HookNext = n; %s.HookRec = r }})\n",
+			n, obj[n], n, n, n, n, n, n, n, n, n, n, n)
 	}
 	for _, n := range names {
 		if b.nest[n] {
@@ -169,7 +190,7 @@ func (b *Batch) Run(jobs []engbrt.Job) ([]engbrt.JobResult, error) {
 	cmd := exec.Command(b.Bin, jf, rf)
 	var out bytes.Buffer
 	cmd.Stdout, cmd.Stderr = &out, &out
-	runErr := cmd.Run()
+	runErr := runBounded(cmd)
 	diverged := false
 	if runErr != nil {
 		if cmd.ProcessState != nil && cmd.ProcessState.ExitCode() == 3 {
@@ -246,7 +267,7 @@ func RunTS(verifDir, scratch string, files map[string]string, jobs []engbrt.Job)
 	cmd := exec.Command("node", filepath.Join(verifDir, "sim", "js", "runner.js"), jf, rf)
 	var out bytes.Buffer
 	cmd.Stdout, cmd.Stderr = &out, &out
-	if err := cmd.Run(); err != nil {
+	if err := runBounded(cmd); err != nil {
 		return nil, fmt.Errorf("node runner died: %v\n%s", err, tail(out.String(), 3000))
 	}
 	rb, err := os.ReadFile(rf)
@@ -339,7 +360,7 @@ func (b *Batch) RunRace(jobs []engbrt.Job) ([]engbrt.JobResult, string, error) {
 	cmd.Env = append(os.Environ(), "GORACE=halt_on_error=0 exitcode=0")
 	var out bytes.Buffer
 	cmd.Stdout, cmd.Stderr = &out, &out
-	if err := cmd.Run(); err != nil {
+	if err := runBounded(cmd); err != nil {
 		return nil, out.String(), fmt.Errorf("race driver died: %v\n%s", err, tail(out.String(), 3000))
 	}
 	rb, err := os.ReadFile(rf)
